@@ -26,6 +26,9 @@ def run(prog, chk):
     index_guard(prog, chk, "C03.e")
     C.wrappers(prog, chk, "C03.w", ("List", "PoolList"))
     C.lockstep_equality(prog, chk, "C03.g", ("List",))
+    # `a.append(a)` / `l.append(l)` / `a.append(a[0])` are operation histories of this property as well: the argument is part of the
+    # sequence that the operation reallocates or grows (rule shared with C04.e)
+    c04_alias.alias_rules(prog, chk, "C03.h")
     C.self_assign(prog, chk, "C03.f", ("List", "Array"))
 
 
